@@ -54,8 +54,9 @@ impl<'a, 'b, 'c> AdtDeserializer<'a, 'b, 'c> {
             match serialized_evolution_step {
                 SerializedEvolutionStep::FieldAddedToNewChunk { size } => {
                     let start = context.pos();
-                    context.skip(*size as usize)?;
-                    inputs.push(InputRegion::new(start, *size as usize));
+                    let size: usize = (*size).try_into()?;
+                    context.skip(size)?;
+                    inputs.push(InputRegion::new(start, size));
                 }
                 SerializedEvolutionStep::FieldMadeOptional { position } => {
                     made_optional_at.insert(*position, idx as u8);
